@@ -31,12 +31,14 @@ thread_local! {
     static AT_EXIT: RefCell<RunAtExit> = RefCell::new(RunAtExit(None));
 }
 
-pub const FAMILIES: [&str; 3] = ["tcp", "agent", "builder"];
+pub const FAMILIES: [&str; 5] = ["tcp", "agent", "builder", "parser", "inspect"];
 
 fn n_cases(family: &str) -> usize {
     match family {
         "tcp" => 8,
         "agent" => crate::agent::scale::teardown_scenarios().len(),
+        "parser" => parser_buffers().len(),
+        "inspect" => inspect_cases().len(),
         _ => builder_progs().len(),
     }
 }
@@ -54,6 +56,49 @@ fn builder_progs() -> Vec<crate::engine_in::prog::Prog> {
             v.push(Prog { class: 0, method: 1, tid, ops });
         }
     }
+    v
+}
+
+/// The C01 family: every 11th case of the stack probe's list (every entry point and read-only operation).
+fn inspect_cases() -> Vec<Case> {
+    crate::props::c01::stack_cases().into_iter().step_by(11).collect()
+}
+
+/// Received buffers of the parser family: sealed in every way, plain, corrupted, truncated, not STUN.
+fn parser_buffers() -> Vec<Vec<u8>> {
+    use crate::refimpl::wire;
+    let mut v = Vec::new();
+    for tail in 0..6u8 {
+        let mut b = wire::encode_header((tail % 4) as u8, 1, 0x0908_0706_0504_0302_0100_0F0E, 0);
+        wire::append_raw(&mut b, 0x0006, b"user");
+        wire::append_raw(&mut b, 0x8022, b"software name");
+        wire::append_raw(&mut b, 0x0020, &[0, 1, 0x21 ^ 0x0D, 0x12 ^ 0x96, 0x21 ^ 192, 0x12, 0xA4 ^ 2, 0x42 ^ 1]);
+        match tail {
+            1 => wire::append_fp(&mut b),
+            2 => wire::append_mi(&mut b, crate::engine_in::KEY),
+            3 => {
+                wire::append_mi(&mut b, crate::engine_in::KEY);
+                wire::append_fp(&mut b);
+            }
+            4 => {
+                wire::append_mi256(&mut b, crate::engine_in::KEY, 32);
+                wire::append_fp(&mut b);
+            }
+            5 => {
+                wire::append_mi(&mut b, crate::engine_in::KEY);
+                wire::append_mi256(&mut b, crate::engine_in::KEY, 16);
+                wire::append_fp(&mut b);
+            }
+            _ => {}
+        }
+        let mut bad = b.clone();
+        let l = bad.len();
+        bad[l - 1] ^= 1;
+        v.push(b.clone());
+        v.push(bad);
+        v.push(b[..b.len() - 3].to_vec());
+    }
+    v.push(vec![0x16, 0x03, 0x01, 0x00, 0x20, 1, 2, 3, 4, 5, 6, 7, 8, 9, 10, 11, 12, 13, 14, 15, 16, 17, 18, 19, 20]);
     v
 }
 
@@ -79,6 +124,27 @@ fn run_case(family: &str, i: usize) -> String {
                 }
             }
             format!("{}", crate::refimpl::crypto::hex(&out.concat())) + &format!("/{}", out.len())
+        }
+        "inspect" => {
+            let mut acc = Acc::default();
+            crate::props::c01::judge(&inspect_cases()[i], &mut acc);
+            format!("{:?}", acc.violations.keys().collect::<Vec<_>>())
+        }
+        "parser" => {
+            use stun_types::message::Message;
+            let buf = &parser_buffers()[i];
+            let key = String::from_utf8(crate::engine_in::KEY.to_vec()).unwrap();
+            match Message::from_bytes(buf) {
+                Err(e) => format!("refused {:?}", crate::real::PErr::from(e)),
+                Ok(m) => {
+                    let (seq, _) = crate::real::iterate(&m, 0);
+                    let v = m.validate_integrity(&crate::real::creds(&crate::refimpl::wire::Creds::Short(key))).map(crate::real::alg_num).map_err(crate::real::PErr::from);
+                    let lt = m.validate_integrity(&crate::real::creds(&crate::refimpl::wire::Creds::Long { user: "u".into(), realm: "r".into(), pass: "p".into() })).map(crate::real::alg_num).map_err(crate::real::PErr::from);
+                    let typed: Vec<String> = crate::refimpl::attrs::ALL_KINDS.iter().map(|k| format!("{:?}", crate::real::msg_attribute(&m, *k, 0x0908_0706_0504_0302_0100_0F0E))).collect();
+                    let police = Message::check_attribute_types(&m, &[0x0006.into()], &[0x0014.into()]).map(|b| b.build());
+                    format!("{seq:?} {v:?} {lt:?} {typed:?} {m} {m:?} {police:?}")
+                }
+            }
         }
         "agent" => {
             let sc = &crate::agent::scale::teardown_scenarios()[i];
@@ -124,11 +190,21 @@ pub fn child(family: &str) {
             });
             // ... then the library, in the body of the thread
             let _ = tx.send(guarded_case(family, i));
+            // ... and from a destructor that runs while the thread is unwinding from a panic
+            // (std::thread::panicking() is true there), the panic being caught
+            let tx3 = tx.clone();
+            let _ = catch_unwind(AssertUnwindSafe(move || {
+                let _g = RunAtExit(Some(Box::new(move || {
+                    let _ = tx3.send(guarded_case(family, i));
+                })));
+                panic!("teardown probe: unwinding");
+            }));
         });
         let _ = h.map(|h| h.join());
         let body = rx.recv().unwrap_or_else(|_| "<nothing>".into());
+        let unwinding = rx.recv().unwrap_or_else(|_| "<nothing>".into());
         let exit = rx.recv().unwrap_or_else(|_| "<nothing>".into());
-        println!("case {i}\t{body}\t{exit}");
+        println!("case {i}\t{body}\t{exit}\t{unwinding}");
     }
     println!("teardown done {}", n_cases(family));
 }
@@ -151,9 +227,13 @@ pub fn judge(prop: &'static str, family: &str, acc: &mut Acc) {
     let mut seen = 0usize;
     for line in text.lines() {
         let f: Vec<&str> = line.split('\t').collect();
-        if f.len() == 3 && f[0].starts_with("case ") {
+        if f.len() == 4 && f[0].starts_with("case ") {
             seen += 1;
             acc.evaluations += 1;
+            if f[1] != f[3] {
+                let short = |s: &str| s.chars().take(200).collect::<String>();
+                acc.violation(Violation::new(prop, &format!("thread-unwinding/{family}"), format!("{} of the {family} family gives another result when it runs from a destructor while the thread is unwinding from a (caught) panic than in the body of the thread", f[0]), short(f[1]), short(f[3]), replay.clone()));
+            }
             if f[1] != f[2] || f[1].starts_with("PANIC") {
                 let short = |s: &str| s.chars().take(200).collect::<String>();
                 acc.violation(Violation::new(prop, &format!("thread-teardown/{family}"), format!("{} of the {family} family gives another result when it runs from the destructor of a thread-local at thread exit than in the body of the thread", f[0]), short(f[1]), short(f[2]), replay.clone()));
@@ -166,4 +246,157 @@ pub fn judge(prop: &'static str, family: &str, acc: &mut Acc) {
         acc.violation(Violation::new(prop, &format!("thread-teardown/{family}/process-died"), format!("the process died while the {family} family ran from thread-local destructors (after {seen} cases)"), "all cases complete".to_string(), format!("{} {}", out.status, err.lines().rev().take(3).collect::<Vec<_>>().join(" / ")), replay));
     }
     acc.outcome("thread teardown probe");
+}
+
+/// The cases of `family` under every per-call-site tracing filter (callsites.rs): the same result as
+/// without a subscriber.  Call sites are discovered while the family runs with everything enabled.
+pub fn callsite_sweep(prop: &'static str, family: &'static str, acc: &mut Acc) {
+    use rayon::prelude::*;
+    let n = n_cases(family);
+    let plain: Vec<String> = (0..n).map(|i| crate::common::guarded(|| run_case(family, i)).unwrap_or_else(|p| format!("PANIC {}", p.message))).collect();
+    let run_under = |label: &str, d: &tracing::Dispatch| -> Vec<Violation> {
+        let mut out = Vec::new();
+        for i in 0..n {
+            let r = crate::common::guarded(|| tracing::dispatcher::with_default(d, || run_case(family, i)));
+            let got = match r {
+                Ok(s) => s,
+                Err(p) => format!("PANIC {} at {}", p.message, p.location),
+            };
+            if got != plain[i] {
+                let short = |s: &str| s.chars().take(220).collect::<String>();
+                let case = Case::new("callsites", vec![]).text(&[family]);
+                out.push(Violation::new(prop, &format!("tracing-filter/{family}"), format!("case {i} of the {family} family gives another result under a tracing subscriber with {label} than without a subscriber"), short(&plain[i]), short(&got), crate::props::in_replay(&case)));
+                break;
+            }
+        }
+        out
+    };
+    for v in run_under("every call site enabled", &crate::callsites::dispatch(crate::callsites::Mode::All)) {
+        acc.violation(v);
+    }
+    let mut done = 0usize;
+    loop {
+        let sites = crate::callsites::seen();
+        if done >= sites.len() || done >= 400 {
+            break;
+        }
+        let found: Vec<Violation> = (done..sites.len().min(400))
+            .into_par_iter()
+            .flat_map_iter(|k| {
+                let mut v = run_under(&format!("only the call site [{}] enabled", sites[k]), &crate::callsites::dispatch(crate::callsites::Mode::OneHot(k)));
+                v.extend(run_under(&format!("every call site but [{}] enabled", sites[k]), &crate::callsites::dispatch(crate::callsites::Mode::AllBut(k))));
+                // a subscriber that panics at this call site (caught): the same case right afterwards, on this
+                // thread and without a subscriber, gives what it always gives
+                let d = crate::callsites::dispatch(crate::callsites::Mode::PanicAt(k));
+                for i in 0..n {
+                    let _ = crate::common::guarded(|| tracing::dispatcher::with_default(&d, || run_case(family, i)));
+                    let after = crate::common::guarded(|| run_case(family, i)).unwrap_or_else(|p| format!("PANIC {} at {}", p.message, p.location));
+                    if after != plain[i] {
+                        let short = |s: &str| s.chars().take(220).collect::<String>();
+                        let case = Case::new("callsites", vec![]).text(&[family]);
+                        v.push(Violation::new(prop, &format!("after-subscriber-panic/{family}"), format!("case {i} of the {family} family gives another result right after the same case ran under a tracing subscriber that panicked at the call site [{}] (the panic was caught)", sites[k]), short(&plain[i]), short(&after), crate::props::in_replay(&case)));
+                        break;
+                    }
+                }
+                v
+            })
+            .collect();
+        acc.evaluations += ((sites.len().min(400) - done) * 2 * n) as u64;
+        for v in found {
+            acc.violation(v);
+        }
+        done = sites.len().min(400);
+    }
+    acc.outcome_n("family run under one-hot / all-but-one call-site filters", (done * 2) as u64);
+}
+
+/// The TcpBuffer programs of the allocation-failure probe: frames of 40 000 / 0 / 5 / 1029 bytes pushed in
+/// chunks of several sizes (the first ones split the length prefix), pulled as they complete.  Only the
+/// library calls run armed.
+fn alloc_tcp_case(i: usize) -> String {
+    use stun_proto::agent::TcpBuffer;
+    let frames: Vec<Vec<u8>> = vec![(0..40_000u32).map(|x| (x % 251) as u8).collect(), vec![], vec![1, 2, 3, 4, 5], (0..1029u32).map(|x| (x % 7) as u8).collect()];
+    let mut stream = Vec::new();
+    for f in &frames {
+        stream.extend_from_slice(&(f.len() as u16).to_be_bytes());
+        stream.extend_from_slice(f);
+    }
+    let firsts: [&[usize]; 6] = [&[1, 5], &[2], &[1, 1, 1], &[6, 1000], &[3, 40_000], &[40_002, 1, 1]];
+    let mut chunks: Vec<&[u8]> = Vec::new();
+    let mut at = 0usize;
+    for n in firsts[i % 6] {
+        let e = (at + n).min(stream.len());
+        chunks.push(&stream[at..e]);
+        at = e;
+    }
+    while at < stream.len() {
+        let e = (at + 16_384).min(stream.len());
+        chunks.push(&stream[at..e]);
+        at = e;
+    }
+    let mut b = TcpBuffer::new();
+    let mut lens = Vec::new();
+    let mut sum = 0u64;
+    for c in chunks {
+        crate::alloc::armed(|| b.push_data(c));
+        while let Some(f) = crate::alloc::armed(|| b.pull_data()) {
+            lens.push(f.len());
+            sum = f.iter().fold(sum, |a, x| a.wrapping_mul(131).wrapping_add(*x as u64));
+        }
+    }
+    format!("{lens:?} {sum:x}")
+}
+pub const N_ALLOC_TCP: usize = 6;
+
+/// Child side of the allocation-failure probe.
+pub fn alloc_child(case: usize, k: i64, min: usize) {
+    crate::alloc::plan(k, min);
+    let r = alloc_tcp_case(case);
+    println!("result\t{}\t{r}", crate::alloc::seen());
+}
+
+/// Parent side: every case without the fault (in a child, to count its allocations), then with each of them refused.
+pub fn alloc_probe(prop: &'static str, acc: &mut Acc) {
+    use rayon::prelude::*;
+    let exe = std::env::current_exe().expect("current_exe");
+    let run = |case: usize, k: i64, min: usize| -> Option<(u64, String)> {
+        let out = std::process::Command::new(&exe).args(["allocprobe", &case.to_string(), &k.to_string(), &min.to_string()]).output().ok()?;
+        if !out.status.success() {
+            return None;
+        }
+        let text = String::from_utf8_lossy(&out.stdout).into_owned();
+        let line = text.lines().find(|l| l.starts_with("result\t"))?.to_string();
+        let f: Vec<&str> = line.split('\t').collect();
+        Some((f.get(1)?.parse().ok()?, f.get(2)?.to_string()))
+    };
+    let mut jobs: Vec<(usize, i64, usize, String)> = Vec::new();
+    for min in [64usize, 4096] {
+        for case in 0..N_ALLOC_TCP {
+            match run(case, -1, min) {
+                Some((n, plain)) => {
+                    for k in 0..n.min(64) as i64 {
+                        jobs.push((case, k, min, plain.clone()));
+                    }
+                }
+                None => panic!("harness: the allocation probe's fault-free child failed"),
+            }
+        }
+    }
+    let results: Vec<(usize, i64, usize, String, Option<(u64, String)>)> = jobs.into_par_iter().map(|(c, k, m, p)| { let r = run(c, k, m); (c, k, m, p, r) }).collect();
+    let (mut died, mut survived) = (0u64, 0u64);
+    for (case, k, min, plain, r) in results {
+        acc.evaluations += 1;
+        match r {
+            None => died += 1,
+            Some((_, got)) => {
+                survived += 1;
+                if got != plain {
+                    let c = Case::new("allocprobe", vec![]).args(&[case as i64, k, min as i64]);
+                    acc.violation(Violation::new(prop, "survives-allocation-failure-with-wrong-frames", format!("TcpBuffer program {case}: allocation #{k} of at least {min} bytes made inside push_data / pull_data is refused; the process survives and goes on with other frames than were sent"), plain.chars().take(200).collect::<String>(), got.chars().take(200).collect::<String>(), crate::props::in_replay(&c)));
+                }
+            }
+        }
+    }
+    acc.outcome_n("allocation refused inside a TcpBuffer call: process died (no verdict)", died);
+    acc.outcome_n("allocation refused inside a TcpBuffer call: process survived, frames compared", survived);
 }
